@@ -173,6 +173,8 @@ pub enum Act {
     /// honest leecher: request up to `0` valid blocks of pieces the client has advertised so far
     /// (nothing when the client is choking us or has advertised nothing)
     RequestOwned(u32),
+    /// request again the block the client served to us last (whatever the choke state)
+    RepeatLast,
 }
 
 #[derive(Clone, Debug, Serialize, Deserialize, PartialEq)]
